@@ -16,6 +16,7 @@ package plan
 
 import (
 	"fmt"
+	"math/big"
 	"strconv"
 	"strings"
 
@@ -1137,7 +1138,8 @@ func getDatabaseFuncHint(f *ast.FuncCallExpr, v ast.ExprNode) (string, error) {
 // Only integer and string literals are values a rule can place. Of a hexadecimal, bit or decimal
 // literal GetValueExprResult gives the restored SQL text (x'10', 1.50), which is not the value MySQL
 // compares the column with (16, 1.5): `k = 0x10` was routed to the table of the string "x'10'" and
-// skipped the row 16. A float literal or NULL made the rule panic or fail.
+// skipped the row 16. A float literal or NULL made the rule panic or fail. A string is placed when
+// the rule reads it as MySQL does.
 func getShardingCompareValue(rule router.Rule, x *driver.ValueExpr) (v interface{}, routable bool, err error) {
 	switch x.Kind() {
 	case types.KindInt64, types.KindUint64, types.KindString, types.KindBytes:
@@ -1148,12 +1150,27 @@ func getShardingCompareValue(rule router.Rule, x *driver.ValueExpr) (v interface
 	if err != nil {
 		return nil, false, err
 	}
-	if s, ok := v.(string); ok && rule.GetType() == router.HashRuleType {
-		// the hash rule places a string of digits where it places the number and every other
-		// string by its checksum. MySQL reads ' 7', '+7', '7.0' and '7e0' as the number 7 as
-		// well: the rows they match are in the table of 7, not in the table of their text
-		if _, err := strconv.ParseUint(s, 10, 64); err != nil && looksLikeNumber(s) {
-			return nil, false, nil
+	if s, ok := v.(string); ok {
+		switch rule.GetType() {
+		case router.HashRuleType:
+			// the hash rule places a string of digits where it places the number and every other
+			// string by its checksum. MySQL reads ' 7', '+7', '7.0' and '7e0' as the number 7 as
+			// well: the rows they match are in the table of 7, not in the table of their text
+			if _, err := strconv.ParseUint(s, 10, 64); err != nil && looksLikeNumber(s) {
+				return nil, false, nil
+			}
+		case router.ModRuleType, router.RangeRuleType, router.MycatLongRuleType, router.MycatPaddingModRuleType:
+			// these rules place integers: NumValue panics with a KeyError on a string that
+			// strconv.ParseInt does not read, while MySQL still compares the column with it
+			// (' 7' and '7.0' are 7)
+			if _, err := strconv.ParseInt(s, 10, 64); err != nil {
+				return nil, false, nil
+			}
+		case router.MycatModRuleType:
+			// MycatPartitionModShard reads the key as a big.Int and panics on anything else
+			if _, ok := new(big.Int).SetString(s, 10); !ok {
+				return nil, false, nil
+			}
 		}
 	}
 	return v, true, nil
